@@ -46,6 +46,18 @@ type pipeCfg struct {
 	ks   bool
 	auth int    // AUTH_RESPONSE rounds (0 = the server answers STARTUP with READY)
 	rm   string // how `down` removes the host: down (status event) | remove (ring refresh) | sethosts
+	cerr int    // transports whose Close() reports an error (after closing): 0 none, 1 all, 2 those with an odd id
+}
+
+// cerrSel: which connections of a scenario have the close-error fault.
+func cerrSel(mode int) func(id int) bool {
+	switch mode {
+	case 1:
+		return func(int) bool { return true }
+	case 2:
+		return func(id int) bool { return id%2 == 1 }
+	}
+	return nil
 }
 
 func (c pipeCfg) String() string {
@@ -53,7 +65,7 @@ func (c pipeCfg) String() string {
 	if c.ks {
 		k = 1
 	}
-	return fmt.Sprintf("size=%d ks=%d auth=%d rm=%s", c.size, k, c.auth, c.rm)
+	return fmt.Sprintf("size=%d ks=%d auth=%d rm=%s cerr=%d", c.size, k, c.auth, c.rm, c.cerr)
 }
 
 // verifAuth answers every challenge and stays the challenger (any number of AUTH_CHALLENGE rounds).
@@ -737,6 +749,7 @@ func runPipeLabelled(label string, cfg pipeCfg, fixed []string, choose chooser, 
 	}
 	g := newGate(ks, cfg.auth)
 	g.auto[1] = true // the connection NewSession waits for
+	g.cerr = cerrSel(cfg.cerr)
 	g.install(node)
 	node.Handle = func(req *memcluster.Request) {
 		req.Conn.Reply(req.Stream, memcluster.OpResult, memcluster.VoidBody())
@@ -1180,6 +1193,14 @@ func genPipeCfg(r *vh.Rng) pipeCfg {
 	case 1:
 		cfg.auth = 2
 	}
+	// the fault point `the transport's Close() returns an error` (Conn.Close then calls back into the pool's
+	// HandleError on the closing goroutine): every third schedule on all connections, every sixth on the odd ones
+	switch r.Intn(6) {
+	case 0, 1:
+		cfg.cerr = 1
+	case 2:
+		cfg.cerr = 2
+	}
 	return cfg
 }
 
@@ -1202,6 +1223,8 @@ func parsePipeCfg(ws []string) (pipeCfg, bool) {
 			cfg.auth = n
 		case "rm":
 			cfg.rm = kv[1]
+		case "cerr":
+			cfg.cerr = n
 		}
 	}
 	return cfg, seen == 1 && cfg.size >= 1 && cfg.size <= 8
